@@ -64,3 +64,39 @@ U("cJSON_PrintPreallocated", "cjson", "harness/cJSON_PrintPreallocated.c", enfor
   defs=["-DVF_VIEW_PV_LOG"], replace=["print_value"])
 U("cJSON_Print", "cjson", "harness/cJSON_Print.c", enforce="cJSON_Print", shape="U", props=["C04", "C05", "C14", "C20"], covers=1, replace=["print/print_cv"])
 U("cJSON_PrintUnformatted", "cjson", "harness/cJSON_PrintUnformatted.c", enforce="cJSON_PrintUnformatted", shape="U", props=["C04", "C05", "C14", "C20"], covers=1, replace=["print/print_cv"])
+
+# ---------------------------------------------------------------- cJSON.c : allocation leaves, hooks, scalars
+U("cJSON_New_Item", "cjson", "harness/cJSON_New_Item.c", enforce="cJSON_New_Item", shape="U", props=["C06", "C07", "C08", "C14", "C20"], covers=2)
+U("cJSON_strdup", "cjson", "harness/cJSON_strdup.c", enforce="cJSON_strdup", shape="U", loops=True, expect_loop_obligations=1, props=["C06", "C07", "C08", "C11", "C14", "C20"], covers=2,
+  note="strings of every length (strlen loop-contract model, memcpy model exact at g_k/g_k2)")
+U("cJSON_malloc", "cjson", "harness/cJSON_malloc.c", enforce="cJSON_malloc", shape="U", props=["C14", "C20"], covers=2)
+U("cJSON_free", "cjson", "harness/cJSON_free.c", enforce="cJSON_free", shape="U", props=["C14", "C07", "C20"], covers=1)
+U("cJSON_InitHooks", "cjson", "harness/cJSON_InitHooks.c", enforce="cJSON_InitHooks", shape="U", props=["C14", "C20"], covers=2)
+U("cJSON_SetNumberHelper", "cjson", "harness/cJSON_SetNumberHelper.c", enforce="cJSON_SetNumberHelper", shape="U", props=["C06", "C20"], covers=2)
+for _f in ("Null", "True", "False", "Array", "Object", "Bool", "Number"):
+    U("cJSON_Create" + _f, "cjson", "harness/cJSON_Create%s.c" % _f, enforce="cJSON_Create" + _f, shape="U", props=["C06", "C07", "C08", "C14", "C20"], covers=2)
+
+# ---------------------------------------------------------------- cJSON.c : sibling-chain surgery (poisoned window, any list length)
+U("w_detach", "cjson", "harness/w_detach.c", no_contract=True, shape="W", funcs=["cJSON_DetachItemViaPointer"], props=["C06", "C07", "C19"], covers=5, unwind=8,
+  note="window {head, prev, item, next, tail}; every other node is released before the call")
+U("w_add_item_to_array", "cjson", "harness/w_add_item_to_array.c", no_contract=True, shape="W", funcs=["add_item_to_array", "suffix_object"], props=["C06", "C07", "C19"], covers=4, unwind=8,
+  note="window {head, tail}")
+U("w_insert", "cjson", "harness/w_insert.c", no_contract=True, shape="W", funcs=["cJSON_InsertItemInArray", "add_item_to_array"], props=["C06", "C19"], covers=6, unwind=8,
+  replace=["get_array_item"], note="window {head, prev, indexed node, tail}; get_array_item replaced by its contract")
+U("w_replace", "cjson", "harness/w_replace.c", no_contract=True, shape="W", funcs=["cJSON_ReplaceItemViaPointer"], props=["C06", "C07", "C19"], covers=6, unwind=8,
+  replace=["cJSON_Delete"], note="window {head, prev, item, next, tail}; cJSON_Delete replaced by its contract (call logged)")
+
+# ---------------------------------------------------------------- cJSON.c : references, keys, object helpers
+U("create_reference", "cjson", "harness/create_reference.c", enforce="create_reference", shape="U", props=["C06", "C07", "C08", "C14", "C20"], covers=2)
+U("add_item_to_object", "cjson", "harness/add_item_to_object.c", enforce="add_item_to_object", shape="U", props=["C06", "C07", "C08", "C14", "C20"], covers=5,
+  replace=["cJSON_strdup/cJSON_strdup_cv", "add_item_to_array/add_item_to_array_cv"],
+  note="includes the aliasing precondition: the key argument may be the item's own key")
+U("cJSON_AddNullToObject", "cjson", "harness/cJSON_AddNullToObject.c", enforce="cJSON_AddNullToObject", shape="U", props=["C06", "C07", "C08", "C14", "C20"], covers=3, defs=["-DVF_CREATE_VIEWS"], replace=["cJSON_CreateNull", "add_item_to_object", "cJSON_Delete"])
+U("cJSON_AddTrueToObject", "cjson", "harness/cJSON_AddTrueToObject.c", enforce="cJSON_AddTrueToObject", shape="U", props=["C06", "C07", "C08", "C14", "C20"], covers=3, defs=["-DVF_CREATE_VIEWS"], replace=["cJSON_CreateTrue", "add_item_to_object", "cJSON_Delete"])
+U("cJSON_AddFalseToObject", "cjson", "harness/cJSON_AddFalseToObject.c", enforce="cJSON_AddFalseToObject", shape="U", props=["C06", "C07", "C08", "C14", "C20"], covers=3, defs=["-DVF_CREATE_VIEWS"], replace=["cJSON_CreateFalse", "add_item_to_object", "cJSON_Delete"])
+U("cJSON_AddBoolToObject", "cjson", "harness/cJSON_AddBoolToObject.c", enforce="cJSON_AddBoolToObject", shape="U", props=["C06", "C07", "C08", "C14", "C20"], covers=3, defs=["-DVF_CREATE_VIEWS"], replace=["cJSON_CreateBool", "add_item_to_object", "cJSON_Delete"])
+U("cJSON_AddNumberToObject", "cjson", "harness/cJSON_AddNumberToObject.c", enforce="cJSON_AddNumberToObject", shape="U", props=["C06", "C07", "C08", "C14", "C20"], covers=3, defs=["-DVF_CREATE_VIEWS"], replace=["cJSON_CreateNumber", "add_item_to_object", "cJSON_Delete"])
+U("cJSON_AddStringToObject", "cjson", "harness/cJSON_AddStringToObject.c", enforce="cJSON_AddStringToObject", shape="U", props=["C06", "C07", "C08", "C14", "C20"], covers=3, defs=["-DVF_CREATE_VIEWS"], replace=["cJSON_CreateString", "add_item_to_object", "cJSON_Delete"])
+U("cJSON_AddRawToObject", "cjson", "harness/cJSON_AddRawToObject.c", enforce="cJSON_AddRawToObject", shape="U", props=["C06", "C07", "C08", "C14", "C20"], covers=3, defs=["-DVF_CREATE_VIEWS"], replace=["cJSON_CreateRaw", "add_item_to_object", "cJSON_Delete"])
+U("cJSON_AddObjectToObject", "cjson", "harness/cJSON_AddObjectToObject.c", enforce="cJSON_AddObjectToObject", shape="U", props=["C06", "C07", "C08", "C14", "C20"], covers=3, defs=["-DVF_CREATE_VIEWS"], replace=["cJSON_CreateObject", "add_item_to_object", "cJSON_Delete"])
+U("cJSON_AddArrayToObject", "cjson", "harness/cJSON_AddArrayToObject.c", enforce="cJSON_AddArrayToObject", shape="U", props=["C06", "C07", "C08", "C14", "C20"], covers=3, defs=["-DVF_CREATE_VIEWS"], replace=["cJSON_CreateArray", "add_item_to_object", "cJSON_Delete"])
